@@ -28,6 +28,7 @@ import (
 	"go/constant"
 	"go/token"
 	"go/types"
+	"os"
 	"sort"
 	"strings"
 
@@ -95,11 +96,11 @@ func meet(a, b LockSet) LockSet {
 type provKind int
 
 const (
-	pShared provKind = iota // unknown / shared object, classes by type
-	pFresh                  // allocated in this operation, unpublished
-	pAddr                   // pointer INTO storage of class
-	pVal                    // reference value whose referent storage is class
-	pStructVal              // by-value copy of a repository struct T (class = T name)
+	pShared    provKind = iota // unknown / shared object, classes by type
+	pFresh                     // allocated in this operation, unpublished
+	pAddr                      // pointer INTO storage of class
+	pVal                       // reference value whose referent storage is class
+	pStructVal                 // by-value copy of a repository struct T (class = T name)
 )
 
 type prov struct {
@@ -126,15 +127,15 @@ type summary struct {
 }
 
 type Analyzer struct {
-	prog     *ssa.Program
-	fset     *token.FileSet
-	repoDir  string
-	repoPkgs map[string]bool // import paths of analysed packages
-	shortPkg map[string]string
-	memo     map[string]*summary
-	allFuncs []*ssa.Function // functions of analysed packages (for dynamic calls)
-	warnings map[string]int
-	dynRes   map[string][]string
+	prog      *ssa.Program
+	fset      *token.FileSet
+	repoDir   string
+	repoPkgs  map[string]bool // import paths of analysed packages
+	shortPkg  map[string]string
+	memo      map[string]*summary
+	allFuncs  []*ssa.Function // functions of analysed packages (for dynamic calls)
+	warnings  map[string]int
+	dynRes    map[string][]string
 	tmpl      *tmplSet
 	stopAt    func(caller, callee *ssa.Function) bool
 	depth     int
@@ -390,6 +391,31 @@ func (in *inst) prov1(v ssa.Value) prov {
 		if v.Op != token.MUL {
 			return prov{}
 		}
+		if al, ok := v.X.(*ssa.Alloc); ok {
+			// local variable (e.g. a spilled result): join of the values
+			// stored into it, flow-insensitively
+			var vals []ssa.Value
+			for _, ref := range *al.Referrers() {
+				if st, ok := ref.(*ssa.Store); ok && st.Addr == al {
+					vals = append(vals, st.Val)
+				}
+			}
+			if len(vals) > 0 {
+				return in.joinProv(vals)
+			}
+		}
+		if fa, ok := v.X.(*ssa.FieldAddr); ok {
+			// field of a local that holds a by-value copy of a shared struct
+			// (e.g. a spilled value receiver)
+			if al, ok := fa.X.(*ssa.Alloc); ok {
+				if sp, ok := in.allocStruct(al); ok {
+					st, _ := deref(al.Type()).Underlying().(*types.Struct)
+					if st != nil {
+						return in.structValField(sp.class, st.Field(fa.Field).Name(), v.Type())
+					}
+				}
+			}
+		}
 		base := in.prov(v.X)
 		switch base.kind {
 		case pFresh:
@@ -444,27 +470,7 @@ func (in *inst) prov1(v ssa.Value) prov {
 		}
 		return p
 	case *ssa.Phi:
-		var res prov
-		allFresh := true
-		for _, e := range v.Edges {
-			if c, ok := e.(*ssa.Const); ok && c.IsNil() {
-				continue
-			}
-			p := in.prov(e)
-			if p.kind != pFresh {
-				allFresh = false
-				if res.kind == pShared || res.kind == pFresh {
-					res = p
-				}
-			}
-		}
-		if allFresh && len(v.Edges) > 0 {
-			return prov{kind: pFresh}
-		}
-		if res.kind == pFresh {
-			return prov{}
-		}
-		return res
+		return in.joinProv(v.Edges)
 	case *ssa.ChangeType:
 		return in.prov(v.X)
 	case *ssa.Convert:
@@ -502,6 +508,57 @@ func (in *inst) prov1(v ssa.Value) prov {
 		return prov{}
 	}
 	return prov{}
+}
+
+// allocStruct: the local holds a whole by-value copy of a shared struct.
+func (in *inst) allocStruct(al *ssa.Alloc) (prov, bool) {
+	var vals []ssa.Value
+	for _, ref := range *al.Referrers() {
+		if st, ok := ref.(*ssa.Store); ok && st.Addr == al {
+			vals = append(vals, st.Val)
+		}
+	}
+	if len(vals) == 0 {
+		return prov{}, false
+	}
+	p := in.joinProv(vals)
+	if p.kind == pStructVal {
+		return p, true
+	}
+	if p.kind == pShared {
+		if name, _ := in.a.repoStruct(deref(al.Type())); name != "" {
+			return prov{pStructVal, name}, true
+		}
+	}
+	return prov{}, false
+}
+
+// joinProv: fresh only if every (non-nil) source is fresh; otherwise the first
+// informative provenance.
+func (in *inst) joinProv(vals []ssa.Value) prov {
+	var res prov
+	allFresh := true
+	n := 0
+	for _, e := range vals {
+		if c, ok := e.(*ssa.Const); ok && c.IsNil() {
+			continue
+		}
+		n++
+		p := in.prov(e)
+		if p.kind != pFresh {
+			allFresh = false
+			if res.kind == pShared || res.kind == pFresh {
+				res = p
+			}
+		}
+	}
+	if allFresh && n > 0 {
+		return prov{kind: pFresh}
+	}
+	if res.kind == pFresh {
+		return prov{}
+	}
+	return res
 }
 
 // ---------------------------------------------------------------- accesses
@@ -912,16 +969,19 @@ func (in *inst) inline(callee *ssa.Function, args []ssa.Value, site *ssa.Call, l
 
 func (in *inst) inlineProv(callee *ssa.Function, ps []prov, site *ssa.Call, locks LockSet) LockSet {
 	s := in.a.analyze(callee, locks, ps)
+	if os.Getenv("LOCKEXTRACT_DEBUG") != "" && in.emit {
+		fmt.Fprintf(os.Stderr, "CALL %s -> %s args=%v locks=%s events=%d exit=%s ret=%v inprog=%v\n", in.a.fnName(in.fn), in.a.fnName(callee), ps, locks.key(), len(s.events), s.exit.key(), s.ret, s.inProgress)
+	}
 	if site != nil {
 		in.callSummaries[site] = s
 	}
 	if s.inProgress {
 		return locks // recursion: assume lock-balanced
 	}
-	for f := range s.reach {
-		in.reach[f] = true
-	}
 	if in.emit {
+		for f := range s.reach {
+			in.reach[f] = true
+		}
 		in.events = append(in.events, s.events...)
 	}
 	return s.exit.clone()
